@@ -361,6 +361,72 @@ pub fn case_strategy() -> impl Strategy<Value = Case> {
     })
 }
 
+// ---- a user-defined unit with its own format options -------------------------------------------------
+
+/// add_dynamic_type_item(.., decimal_digits, use_fract_rounding, remove_fract_if_zero): a quantity of that unit is
+/// printed by the same rule with exactly those options
+#[derive(Clone, Debug, Serialize, Deserialize)]
+pub struct UnitFormat {
+    pub bits: u64,
+    pub digits: u8,
+    pub remove_zero: bool,
+    pub rounding: bool,
+    /// index into the four reading conventions
+    pub seps: u8,
+}
+
+pub struct CustomUnitFormat;
+
+impl Prop for CustomUnitFormat {
+    type Case = UnitFormat;
+    fn shrink_iters(&self) -> u32 {
+        150
+    }
+    fn name(&self) -> &'static str {
+        "custom-unit-format"
+    }
+    fn check(&self, w: &mut Worker, c: &UnitFormat) -> Verdict {
+        let v = f64::from_bits(c.bits);
+        let (dec, thou) = PRINT_SEPS[c.seps as usize % 4];
+        let cfg = Cfg::seps(dec, thou);
+        let line = format!("{} zib", literal(v, dec, "", false));
+        let rendered = format!("[{} unit options digits={} rounding={} remove_zero={}] {} (value {:?})", cfg.label(), c.digits, c.rounding, c.remove_zero, line, v);
+        let mut calc = crate::common::build_calc(&cfg);
+        let ok = crate::engine::guarded(|| {
+            calc.add_dynamic_type("zibs".to_string())
+                && calc.add_dynamic_type_item("zibs".to_string(), 1, "{value} zib".to_string(), vec!["{NUMBER:value} {TEXT:type:zib}".to_string()], "{value} / 10".to_string(), "{value} * 10".to_string(), vec!["zib".to_string()], Some(c.digits), Some(c.rounding), Some(c.remove_zero))
+        });
+        match ok {
+            Ok(true) => {}
+            Ok(false) => return Verdict::fail("registration of a fresh unit family was rejected".into(), rendered),
+            Err(p) => return Verdict::fail(format!("registration panicked at {}: {}", p.site, p.message), rendered),
+        }
+        w.count_eval(1);
+        let mut acc = Acc::new();
+        match crate::common::eval_on(&calc, "en", &line) {
+            Ok(o) => match o.slots.first() {
+                Some(Slot::Ok { out, .. }) => {
+                    let exp: Vec<String> = expected_number(v, dec, thou, c.digits, c.remove_zero, c.rounding).into_iter().map(|s| format!("{} zib", s)).collect();
+                    if !exp.iter().any(|e| e == out) {
+                        acc.fail(format!("printed {:?}, expected {}", out, exp.iter().map(|e| format!("{:?}", e)).collect::<Vec<_>>().join(" or ")));
+                    }
+                }
+                other => acc.fail(format!("expected a quantity, got {:?}", other.map(|s| s.brief()))),
+            },
+            Err(p) => acc.fail(format!("panic at {}: {}", p.site, p.message)),
+        }
+        acc.finish(rendered).nt(v.fract() != 0.0 || v.abs() >= 1000.0).class("user-unit-with-format-options").class_if(c.rounding != c.remove_zero, "rounding-and-zero-removal-differ")
+    }
+}
+
+pub fn unit_format_strategy() -> impl Strategy<Value = UnitFormat> {
+    (value_strategy(), 0u8..=6, any::<bool>(), any::<bool>(), 0u8..4).prop_map(|(v, digits, remove_zero, rounding, seps)| {
+        // a literal carries the value exactly only for moderate magnitudes and non-negative values
+        let v = if v.is_finite() && v.abs() < 1e15 { v.abs() } else { 1234.5678 };
+        UnitFormat { bits: v.to_bits(), digits, remove_zero, rounding, seps }
+    })
+}
+
 pub fn self_test() {
     assert_eq!(round_exact(0.125, 2), vec![("0".to_string(), "12".to_string()), ("0".to_string(), "13".to_string())]);
     assert_eq!(round_exact(0.995, 2), vec![("0".to_string(), "99".to_string())]); // 0.995 is below the tie in binary
@@ -388,11 +454,13 @@ pub fn run(ctx: &Ctx) {
     ctx.assume("digit counts >= 10, infinities and NaN are outside the statement (C01 covers them for panics)");
     ctx.run_table(&Print, "boundary-table", table(), true);
     ctx.run_generated(&Print, ctx.tier.pick(150_000, 3_000_000), case_strategy);
+    ctx.run_generated(&CustomUnitFormat, ctx.tier.pick(400, 6_000), unit_format_strategy);
 }
 
 pub fn replay(w: &mut Worker, sub: &str, case: &serde_json::Value) -> Option<Verdict> {
     match sub {
         "print" => crate::engine::replay_case(&Print, w, case),
+        "custom-unit-format" => crate::engine::replay_case(&CustomUnitFormat, w, case),
         _ => None,
     }
 }
